@@ -78,6 +78,12 @@ type failure struct {
 // classify names well-understood failure signatures so that violation keys are stable across seeds.
 func classify(m *caseMeta, lines []string) string {
 	joined := strings.ReplaceAll(strings.Join(lines, "\n"), "\\x20", " ")
+	if m != nil && strings.HasPrefix(m.Kind, "shared(") {
+		return "shared-js-value"
+	}
+	if m != nil && strings.Contains(m.Type, "(one Go ") {
+		return "shared-go-value"
+	}
 	if m != nil && strings.Contains(m.Lit, "__proto__") {
 		return "proto-key"
 	}
@@ -235,6 +241,22 @@ func Run(c *core.Ctx) int {
 			}
 			addGen(p)
 		}
+		// one JavaScript (or Go) value reachable several times inside one converted value and read at
+		// different Go types: sharing, aliasing, cycles (alias.go)
+		{
+			r := c.Rand("aliasing" + sfx)
+			if rep == 0 {
+				// the fixed grid over pairs of reader types and the cyclic graphs do not depend on the seed
+				p := newProg("aliasing-grid")
+				genAliasGrid(newAliasGen(p, r), !c.Quick())
+				genAliasCycles(p)
+				addGen(p)
+			}
+			p := newProg("aliasing-drawn" + sfx)
+			genAliasDrawn(newAliasGen(p, r), c.N(70, 400))
+			genAliasGo2JS(p, r, c.N(50, 300))
+			addGen(p)
+		}
 		// values that originate in JavaScript
 		{
 			r := c.Rand("js2go" + sfx)
@@ -294,7 +316,9 @@ func Run(c *core.Ctx) int {
 			}
 			return m
 		}
+		t0 := time.Now()
 		cr := c.CompileJS(dir, core.CompileOpt{})
+		tCompile := time.Since(t0)
 		if cr.TimedOut {
 			c.Inconclusive("compile-timeout")
 			return
@@ -314,6 +338,9 @@ func Run(c *core.Ctx) int {
 		if run.TimedOut {
 			c.Inconclusive("node-timeout")
 			return
+		}
+		if os.Getenv("VERIF_DEBUG") != "" {
+			fmt.Printf("c11: program %-22s compile %6.1fs  compile+run %6.1fs\n", j.name, tCompile.Seconds(), time.Since(t0).Seconds())
 		}
 		recs := map[string][]string{}
 		var recOrder []string
@@ -558,7 +585,7 @@ func Run(c *core.Ctx) int {
 				if f.meta.Dir == "go2js" {
 					what = fmt.Sprintf("%s: Go %s value %s sent via %s, read back via %s (program %s case %s)", f.class, f.meta.Type, f.meta.Lit, sendPaths[f.meta.Path], recvPaths[f.meta.Recv], j.name, f.caseID)
 				} else {
-					what = fmt.Sprintf("%s: JavaScript %s value %s read from Go (program %s case %s)", f.class, f.meta.Kind, f.meta.Lit, j.name, f.caseID)
+					what = fmt.Sprintf("%s: JavaScript %s value %s read from Go [%s] (program %s case %s)", f.class, f.meta.Kind, f.meta.Lit, f.meta.Type, j.name, f.caseID)
 				}
 			}
 			failures = append(failures, key)
@@ -612,7 +639,7 @@ func Run(c *core.Ctx) int {
 		"doc_silent_determinism_only":      []string{"ill-formed UTF-16 -> Go string", "invalid UTF-8 -> JS string", "integers beyond 2^53"},
 	}
 	return c.Finish("exploration", valueCases+bulkCases, len(triples), c.N(250, 600),
-		"self-checking GopherJS programs + JS-side probe (node --require): every value case is one (Go type, value, send path, receive path) or one JavaScript-made value; for each the probe's descriptor of what arrived in JavaScript must equal the descriptor derived from the table in js/js.go, Interface()/accessor/typed read-backs must equal the documented conversion bit-exactly, non-representable values must not crash and must convert deterministically. distinct_nontrivial = distinct (Go type, expected JS class, send path) triples + distinct JS-made values + hand-written scenario programs that held. Bulk PRNG iterations (strings, float64 bit patterns, integers, typed arrays) are compared on both sides in-program.",
+		"self-checking GopherJS programs + JS-side probe (node --require): every value case is one (Go type, value, send path, receive path) or one JavaScript-made value; for each the probe's descriptor of what arrived in JavaScript must equal the descriptor derived from the table in js/js.go, Interface()/accessor/typed read-backs must equal the documented conversion bit-exactly, non-representable values must not crash and must convert deterministically. distinct_nontrivial = distinct (Go type, expected JS class, send path) triples + distinct JS-made values + hand-written scenario programs that held. Bulk PRNG iterations (strings, float64 bit patterns, integers, typed arrays) are compared on both sides in-program. Sharing cases (programs aliasing-*): a JavaScript graph in which one object/array/typed array occurs several times (also cyclically) and is read at a different Go type at each position must give the Go value of its tree-unfolded (cycles: less-shared bisimilar, depth-bounded) copy and, where the table settles every leaf, the harness-derived literal; a Go map/slice/pointer stored at several positions of one externalised value must arrive as the documented image of the unfolded value.",
 		extra, []string{
 			"the package comment table of js/js.go and the method comments are the specification; where they are silent nothing is asserted",
 			"node v20 is the JavaScript engine; typed read-back of null as map/pointer/func is treated as undocumented",
